@@ -301,10 +301,18 @@ struct Config
             violation("C02:object-outside-block " + who + " param=" + std::to_string(I));
         else
         {
+            // reading a tracked object that is not alive is a lifetime violation even when its bytes are still there
             if constexpr (Pi::kind == PLAIN)
+            {
+                if constexpr (!std::is_arithmetic_v<typename Pi::type> && !std::is_trivially_destructible_v<typename Pi::type>) f.check("read");
                 ids.push_back(id_of(f));
+            }
             else
-                for (std::size_t k = 0; k < n; ++k) ids.push_back(id_of(f[k]));
+                for (std::size_t k = 0; k < n; ++k)
+                {
+                    if constexpr (!std::is_arithmetic_v<typename Pi::type> && !std::is_trivially_destructible_v<typename Pi::type>) f[k].check("read");
+                    ids.push_back(id_of(f[k]));
+                }
         }
         if (start < prev_end) violation("C04:overlap-or-disorder " + who + " param=" + std::to_string(I));
         const auto greedy = (prev_end + Pi::al - 1) / Pi::al * Pi::al;
